@@ -23,6 +23,23 @@ pub struct LBlock {
     /// a block WITHOUT check-lua (other blocks of the file are scripted): never called, never reported
     #[serde(default)]
     pub plain: bool,
+    /// reuse the script AND the content lines of the nearest earlier scripted block: two blocks that differ
+    /// only in where they are and what their tags say
+    #[serde(default)]
+    pub shares_prev: bool,
+}
+
+/// owner[i] = the block whose script (and content lines) block i uses
+fn owners(c: &LuaCase) -> Vec<usize> {
+    let mut o: Vec<usize> = (0..c.blocks.len()).collect();
+    for i in 1..c.blocks.len() {
+        if c.blocks[i].shares_prev && !c.blocks[i].plain
+            && let Some(k) = (0..i).rev().find(|k| !c.blocks[*k].plain)
+        {
+            o[i] = o[k];
+        }
+    }
+    o
 }
 
 #[derive(Clone, Debug, Serialize, Deserialize, Hash, PartialEq, Eq)]
@@ -40,7 +57,8 @@ pub struct LuaCase {
 fn script(kind: &str, busy: u32, log: Option<(&str, &str)>) -> String {
     let busy_loop = format!("  local x = 0\n  for i = 1, {busy} do x = x + i % 7 end\n");
     let logging = match log {
-        Some((path, name)) => format!("  local f = io.open({path:?}, \"a\")\n  f:write({name:?} .. \"\\n\")\n  f:close()\n"),
+        // the log names the block the call was made for (scripts may be shared between blocks)
+        Some((path, _)) => format!("  local f = io.open({path:?}, \"a\")\n  f:write(ctx.attrs.name .. \"\\n\")\n  f:close()\n"),
         None => String::new(),
     };
     let payload = "  local keys = {}\n  for k, _ in pairs(ctx.attrs) do keys[#keys + 1] = k end\n  table.sort(keys)\n  local parts = {\"<<\", ctx.file, \"|\", tostring(ctx.line), \"|\"}\n  for _, k in ipairs(keys) do parts[#parts + 1] = k .. \"=\" .. ctx.attrs[k] .. \";\" end\n  parts[#parts + 1] = \"|\" .. content .. \">>\"\n  return table.concat(parts)\n";
@@ -66,6 +84,7 @@ struct Laid {
 }
 
 fn lay_out(c: &LuaCase) -> Vec<Laid> {
+    let own = owners(c);
     let mut out = vec![];
     for f in 0..6usize {
         let idx: Vec<usize> = (0..c.blocks.len()).filter(|i| c.blocks[*i].file as usize % 6 == f).collect();
@@ -99,8 +118,8 @@ fn lay_out(c: &LuaCase) -> Vec<Laid> {
                 attrs.insert(k.clone(), v.clone());
             }
             if !b.plain {
-                tag.push_str(&format!(" check-lua=\"scripts/s{i}.lua\""));
-                attrs.insert("check-lua".into(), format!("scripts/s{i}.lua"));
+                tag.push_str(&format!(" check-lua=\"scripts/s{}.lua\"", own[i]));
+                attrs.insert("check-lua".into(), format!("scripts/s{}.lua", own[i]));
             }
             if let Some(p) = b.pattern.filter(|_| !b.plain) {
                 let re = models::KEY_PATS[p as usize % models::KEY_PATS.len()].re;
@@ -112,7 +131,7 @@ fn lay_out(c: &LuaCase) -> Vec<Laid> {
             let tag_line = line;
             line += 1;
             let mut content = String::from("\n");
-            for l in &b.lines {
+            for l in &c.blocks[own[i]].lines {
                 let t = if l.trim().is_empty() { format!("{l}\n") } else { format!("{copen}{l}\n") };
                 text.push_str(&t);
                 content.push_str(&t);
@@ -138,6 +157,13 @@ pub fn check(c: &LuaCase, probe: &Probe) -> Verdict {
             kind[*bi as usize % n] = KINDS[2 + *k as usize % (KINDS.len() - 2)];
         }
     }
+    let own = owners(c);
+    for i in 0..n {
+        if own[i] != i {
+            kind[i] = kind[own[i]];
+            probe.class("block-sharing-script-and-content-with-an-earlier-one");
+        }
+    }
     let any_failing = kind.iter().any(|k| !matches!(*k, "nil" | "payload" | "plain"));
     let laid = lay_out(c);
     let sb = if c.diff_mode { Sandbox::new() } else { Sandbox::with_fake_git() };
@@ -148,7 +174,7 @@ pub fn check(c: &LuaCase, probe: &Probe) -> Verdict {
         sb.commit_all("base");
     }
     for (i, b) in c.blocks.iter().enumerate() {
-        if b.plain {
+        if b.plain || own[i] != i {
             continue;
         }
         let name = format!("lb{i}");
@@ -276,8 +302,8 @@ pub fn case_strategy() -> BoxedStrategy<LuaCase> {
         1 => Just("ends with nbsp\u{a0}\u{a0}".to_string()),
     ];
     let attr = (prop_oneof![Just("data-x"), Just("note"), Just("k_1"), Just("имя")], proptest::string::string_regex("[ -!#-;=?-~é]{0,12}").unwrap()).prop_map(|(k, v)| (k.to_string(), v));
-    let block = (proptest::collection::vec(text, 0..6), proptest::collection::vec(attr, 0..3), proptest::option::weighted(0.25, 0u8..5), proptest::bool::weighted(0.3), prop_oneof![3 => Just(0u32), 2 => 0u32..2000, 1 => 0u32..300000], 0u8..6, proptest::bool::weighted(0.2))
-        .prop_map(|(lines, extra_attrs, pattern, returns_nil, busy, file, plain)| LBlock { lines: lines.into_iter().map(|l| l.replace("<block", "<blok").replace("</block", "</blok")).collect(), extra_attrs, pattern, returns_nil, busy, file, plain })
+    let block = (proptest::collection::vec(text, 0..6), proptest::collection::vec(attr, 0..3), proptest::option::weighted(0.25, 0u8..5), proptest::bool::weighted(0.3), prop_oneof![3 => Just(0u32), 2 => 0u32..2000, 1 => 0u32..300000], 0u8..6, proptest::bool::weighted(0.2), proptest::bool::weighted(0.25))
+        .prop_map(|(lines, extra_attrs, pattern, returns_nil, busy, file, plain, shares_prev)| LBlock { lines: lines.into_iter().map(|l| l.replace("<block", "<blok").replace("</block", "</blok")).collect(), extra_attrs, pattern, returns_nil, busy, file, plain, shares_prev })
         .boxed();
     (
         prop_oneof![3 => proptest::collection::vec(block.clone(), 1..8), 1 => proptest::collection::vec(block, 8..41)],
@@ -292,7 +318,7 @@ pub fn case_strategy() -> BoxedStrategy<LuaCase> {
 }
 
 pub fn run(run: &mut Run) {
-    run.rule = "random: 1..40 check-lua blocks over up to 5 files (root and nested directories, one with a space; py/sh/toml/yaml), each with its own generated script (20% of the blocks carry no check-lua at all and sit between scripted ones), arbitrary content lines (printable ASCII incl. quotes and backslashes, Unicode, empty and whitespace-only first/last lines), 0..2 extra attributes, optional check-lua-pattern from the key-pattern family; scripts return a framed payload serialising ctx.file, ctx.line, the sorted ctx.attrs and content, or nil, after a busy loop of 0..300000 iterations; in half of the cases 1..3 blocks get a failing script (syntax error, error(), error with a table, no validate, number / boolean / table result) at any index; TOKIO_WORKER_THREADS in {1,2,4,16}, pinned to one core in 30%, `safe` mode with an appended call log in 50%, scan or new-file diff mode. Non-trivial = >= 3 blocks and (a failing script, or busy loops of different lengths).".into();
+    run.rule = "random: 1..40 check-lua blocks over up to 5 files (root and nested directories, one with a space; py/sh/toml/yaml), each with its own generated script, except that 25% reuse the script and the content lines of the nearest earlier scripted block (same or other file; only position and tag differ) (20% of the blocks carry no check-lua at all and sit between scripted ones), arbitrary content lines (printable ASCII incl. quotes and backslashes, Unicode, empty and whitespace-only first/last lines), 0..2 extra attributes, optional check-lua-pattern from the key-pattern family; scripts return a framed payload serialising ctx.file, ctx.line, the sorted ctx.attrs and content, or nil, after a busy loop of 0..300000 iterations; in half of the cases 1..3 blocks get a failing script (syntax error, error(), error with a table, no validate, number / boolean / table result) at any index; TOKIO_WORKER_THREADS in {1,2,4,16}, pinned to one core in 30%, `safe` mode with an appended call log in 50%, scan or new-file diff mode. Non-trivial = >= 3 blocks and (a failing script, or busy loops of different lengths).".into();
     run.assumptions = vec!["the Tokio schedule is perturbed (worker count, affinity, busy loops), not owned: an interleaving-specific loss could be missed".into()];
     run.shrink_iters = 120;
     run.random("lua", run.tier.pick(500, 12000), case_strategy, check);
